@@ -43,8 +43,10 @@ def main():
       r = rounds.setdefault(int(m.get("round", 1)), [0, 0, 0])
       r[0] += 1
       own = [x for x in m.get("confirmed", {}).get("checks_run", "").split() if x.startswith(str(m.get("property", "?")) + ":")]
-      r[1] += 1 if own and own[0].endswith("rc=1") else 0
-      r[2] += 1 if m.get("strengthened") else 0
+      detected = bool(own and own[0].endswith("rc=1"))
+      r[1] += 1 if detected else 0
+      # (a note is also kept for changes that are NOT detected or only by a sibling check: those are not counted here)
+      r[2] += 1 if (detected and m.get("strengthened")) else 0
   for k in sorted(rounds):
     n, det, stren = rounds[k]
     out.append(f"* round {k}: {n} changes, {det} detected by the quick check of their own property as it stands now, "
